@@ -264,7 +264,7 @@ def worker(batch):
 def run(ctx):
     status = coqbuild.prove("C14", THEOREMS)
     rng = ctx.rng
-    n = 1000 if ctx.quick else 12000
+    n = 1000 if ctx.quick else 36000
     cases = [gen_case(rng, i) for i in range(n)]
     batches = [cases[i:i + 50] for i in range(0, len(cases), 50)]
     agg = {"n": 0, "returned": 0, "raised": 0}
